@@ -69,7 +69,7 @@ CLAIMED = {
    category='proof',
    text='At the only prompt call site of the real solver z3 proves, for every state reachable under the invariant: prompting happens only while not refused, the asked input is declared, not yet supplied, has a registered waiting line, and needed_by is exactly the list of lines registered as waiting on it (registrations come only from MissingInput raised by that line); answers are stored in the input store before anything else can fail and never removed.',
    design_ref='DESIGN 4 C13',
-   note="Assumptions: the line oracle A-PURE (a line evaluation ends in exactly one of value / UnmetDependency of an unvalued line / MissingInput of a declared unprovided input / MissingInputSpecification of an undeclared input / FieldNotImplemented / other exception), A-FORM/A-CAT (a form's inputs, lines, required lines are a fixed function of its name; C17), A-BAG (order-irrelevant lists as multisets, hence every attempt/drain/prompt order), A-GEN, A-PROMPT; precondition of solve(): distinct not-yet-loaded form names, field_names=[] . A value may be rewritten only by re-evaluation of the same line. A non-discharged obligation is reported as a violation only when the toy-form concretisation search reproduces it on the real Solver; otherwise undecided (exit 2)." + ' The re-run clause (write back, solve again: nothing asked, identical solution) needs the uniqueness lemma of C05 and A-CFG and is NOT discharged here.',
+   note="Assumptions: the line oracle A-PURE (a line evaluation ends in exactly one of value / UnmetDependency of an unvalued line / MissingInput of a declared unprovided input / MissingInputSpecification of an undeclared input / FieldNotImplemented / other exception), A-FORM/A-CAT (a form's inputs, lines, required lines are a fixed function of its name; C17), A-BAG (order-irrelevant lists as multisets, hence every attempt/drain/prompt order), A-GEN, A-PROMPT; precondition of solve(): distinct not-yet-loaded form names, field_names=[] . A value may be rewritten only by re-evaluation of the same line. A non-discharged obligation is reported as a violation only when the toy-form concretisation search reproduces it on the real Solver; otherwise undecided (exit 2)." + ' The re-run clause is a lemma over contracts: answers are stored as exactly the typed text and written/parsed with the default dialect (obligations here), the exit postconditions make the final state stable for the inputs plus answers, the Lean lemma unique (kernel-checked here) gives the same state for run 2, and InputStore.__getitem__ (C11) never reports a stored key missing; configparser write/read round trip is A-CFG.',
    technique='call-site obligations under the solver invariant, z3'),
  'C20': dict(
    category='proof',
